@@ -209,13 +209,15 @@ def run_check(pm, prop, tier, verbose):
     seen_native = set()
     for f in native_fail:
         key = (f.func, f.kind, f.label)
-        if id(f) in attached or key in seen_native:
+        if id(f) in attached:
             continue
-        seen_native.add(key)
         kf = known_for_failure(known, prop, f)
         if kf:
             known_lines.append((kf["id"], kf["what"]))
             continue
+        if key in seen_native:
+            continue
+        seen_native.add(key)
         violations.append((f"{f.func}/{f.kind}[{f.label}]", {"property": prop, "obligation": f"native:{f.func}/{f.kind}[{f.label}]", "kind": "native-contract", "native": f.to_json()}, True))
 
     # ---------------------------------------------------------------- verdict + evidence
